@@ -105,6 +105,11 @@ def run(ctx):
                     if tg0 and all(P.RULEISH(t_) for t_ in tg0):
                         continue
                 ctx.fail("K1.second-notion", "%s|%s" % (op, callee_path(s.term)), "the operator %r inspects a value with %s instead of the shared truthiness table" % (op, callee_path(s.term)), where=s.where(), fn=s.body.key)
+            # a number is judged by the shared table only: no deciding position (with its helpers) reads the numeric value of
+            # a JSON number itself — whatever the provenance of the value; a literal 0.0 judged by `as_i64() != Some(0)` in a
+            # "fast path for literals" is a second table that disagrees with the shared one on that operand (seeded C06-N)
+            for s in u.calls(lambda c: re.match(r"^serde_json::Number::(as_i64|as_u64|as_f64|is_i64|is_u64|is_f64|as_i128|as_u128)$", c["path"]) is not None):
+                ctx.fail("K1.second-notion", "%s|%s" % (op, callee_path(s.term)), "the operator %r (or a helper of its own) reads the value of a JSON number with %s: numbers are judged by the shared truthiness table only" % (op, callee_path(s.term)), where=s.where(), fn=s.body.key)
             # what the position has interpreted are its operands as written: it does not build a JSON value at run time and
             # hand that to the parser as if it were rule text (e.g. negating a predicate by wrapping it in {"!": …} instead of
             # negating the verdict: the wrapped rule is read by the operator sugar, `[0]` becomes an argument list, and the
